@@ -400,9 +400,12 @@ package core
 //@     decreases rdlen(l.reader) - rdpos(l.reader)
 
 // comments run from % to the end of the line (CR, LF or CR LF, which is consumed)
+// (C06) a comment runs to its end-of-line marker (CR, LF or CR LF) and takes nothing after it: the lexer stops right
+// behind a CR or LF, or at the end of the data
 //@ func (*Lexer) readComment results (tok, err)
-//@   property C02
+//@   property C02, C06
 //@   requires !isnil(l.reader)
+//@   ensures stops_right_behind_the_end_of_line: !err && !rdbad(l.reader) ==> rdpos(l.reader) == rdlen(l.reader) || rdat(l.reader, rdpos(l.reader) - 1) == 10 || rdat(l.reader, rdpos(l.reader) - 1) == 13
 //@   ensures progress: rdpos(l.reader) >= old(rdpos(l.reader)) && (!err ==> rdpos(l.reader) > old(rdpos(l.reader)) && !isnil(tok)) && lsame(l, old(l)) && !isnil(l.reader)
 //@   loop 0:
 //@     invariant !isnil(l.reader) && lsame(l, old(l)) && rdpos(l.reader) > old(rdpos(l.reader))
@@ -433,5 +436,4 @@ package core
 // ---- C04: the newest revision is the one the LAST startxref keyword of the file points to ----
 //@ func (*XRefParser) FindXRef results (off, err)
 //@   property C04
-//@   flags nosafety
 //@   atreturn starts_from_the_last_startxref: idx == strings.LastIndex(content, "startxref") && idx >= 0 && offset == strconv.ParseInt(strings.TrimSpace(lines[1]), 10, 64)
